@@ -99,6 +99,8 @@ class Server:
             v = self.password or 'OK'
             if v == 'OK': self.send(b'OK\n')
             elif v == 'ACK': self.send(b'ACK [3@0] {password} incorrect password\n')
+            elif v == 'ACKempty': self.send(b'ACK [3@0] {password} \n')                     # any error response is the verdict "incorrect", also one without text
+            elif v == 'ACKperm': self.send(b'ACK [4@0] {} you don\'t have permission for "password"\n')
             elif v == 'listACK': self.send(b'list_OK\nACK [3@1] {password} incorrect password\n')       # an error response that carries a frame before the error
             elif v == 'garbage': self.send(b'\x01\x02\n')
             elif v == 'close': self.closed = True; self.t.eof = True
